@@ -3,6 +3,7 @@ package callsim
 import (
 	"encoding/binary"
 	"hash/fnv"
+	"runtime"
 
 	"verifsim/rng"
 )
@@ -54,6 +55,43 @@ type taskState struct {
 	fn       func()
 	// mapCalls counts verifsim.Keys calls by this task (map-order seam)
 	mapCalls uint64
+	// hold > 0: the task is inside a section bracketed by verifsim.Hold (it holds a real lock, is inside
+	// sync.Once.Do or in code that starts goroutines); its yields do not preempt.
+	hold int
+	goid uint64
+}
+
+// goid returns the current goroutine's id (slow; only used when the library starts goroutines of its own).
+func goid() uint64 {
+	var buf [64]byte
+	n := runtime.Stack(buf[:], false)
+	// "goroutine 123 [running]:..."
+	var id uint64
+	for _, c := range buf[10:n] {
+		if c < '0' || c > '9' {
+			break
+		}
+		id = id*10 + uint64(c-'0')
+	}
+	return id
+}
+
+// holdHook is installed as verifsim.HoldHook.
+func (s *sched) holdHook(d int) {
+	if !s.active {
+		return
+	}
+	t := s.tasks[s.cur]
+	if s.foreign && goid() != t.goid {
+		return
+	}
+	t.hold += d
+	if t.hold < 0 {
+		t.hold = 0
+	}
+	if d > 0 {
+		s.holds++
+	}
 }
 
 type sched struct {
@@ -71,6 +109,8 @@ type sched struct {
 	preemptInsideRun   int64 // preemptions taken while another task was inside a Run of the same model
 	switches           int64
 	aborted            bool
+	foreign            bool  // the library starts goroutines of its own: check goroutine identity at yields
+	holds              int64 // Hold(+1) calls seen (lock / once / atomic-function sections entered)
 	sitePairs          map[uint64]struct{}
 	curNodeOp          []string // operator type each task is currently applying ("" = none)
 	overlapOps         map[string]int64
@@ -111,12 +151,18 @@ func (s *sched) hook(site int) {
 		return
 	}
 	t := s.tasks[s.cur]
+	if s.foreign && goid() != t.goid {
+		return // a goroutine the library started itself: not under the scheduler's control
+	}
 	k := t.yields
 	t.yields++
 	s.steps++
 	if s.steps > s.maxSteps {
 		// runaway guard: stop preempting, let everything run to completion serially
 		s.aborted = true
+		return
+	}
+	if t.hold > 0 {
 		return
 	}
 	next := s.pol.atYield(s, t.id, k, s.steps, site)
@@ -153,7 +199,11 @@ func (s *sched) run(fns []func()) {
 		t := t
 		go func() {
 			<-t.wake
+			if s.foreign {
+				t.goid = goid()
+			}
 			t.fn()
+			t.hold = 0
 			t.finished = true
 			next := s.pol.onFinish(s, t.id)
 			if next < 0 || next >= len(s.tasks) || s.tasks[next].finished {
